@@ -268,3 +268,176 @@ theorem sumF_erase (f : ν → Int) (m : List (κ × ν)) (x : κ) (h : NoDupKey
 
 end AL
 end Mainchain
+
+/-! ### `insertRec` : the same map behaviour as `AL.insert`, position by store-key order -/
+namespace Mainchain
+open AL
+
+variable {ν : Type}
+
+/-- the record list is in ascending store-key order (hence without duplicate keys) -/
+def RecsSorted (m : List ((Nat × Nat) × ν)) : Prop := m.Pairwise (fun a b => pairLt a.1 b.1 = true)
+
+theorem pairLt_irrefl (a : Nat × Nat) : pairLt a a = false := by simp [pairLt]
+
+theorem pairLt_trans (a b c : Nat × Nat) (h1 : pairLt a b = true) (h2 : pairLt b c = true) : pairLt a c = true := by
+  simp only [pairLt, Bool.or_eq_true, Bool.and_eq_true, decide_eq_true_eq] at *
+  omega
+
+theorem pairLt_total (a b : Nat × Nat) (h1 : a ≠ b) (h2 : pairLt a b = false) : pairLt b a = true := by
+  obtain ⟨a1, a2⟩ := a
+  obtain ⟨b1, b2⟩ := b
+  have hne : ¬ (a1 = b1 ∧ a2 = b2) := fun h => h1 (by rw [h.1, h.2])
+  simp only [pairLt, Bool.or_eq_false_iff, Bool.and_eq_false_iff, decide_eq_false_iff_not, Bool.or_eq_true,
+    Bool.and_eq_true, decide_eq_true_eq] at *
+  omega
+
+theorem nodup_of_sorted (m : List ((Nat × Nat) × ν)) (h : RecsSorted m) : NoDupKeys m := by
+  unfold NoDupKeys keys List.Nodup
+  rw [List.pairwise_map]
+  unfold RecsSorted at h
+  refine List.Pairwise.imp ?_ h
+  intro a b hab e
+  rw [e, pairLt_irrefl] at hab; cases hab
+
+@[simp] theorem find_insertRec_eq (m : List ((Nat × Nat) × ν)) (x : Nat × Nat) (w : ν) :
+    find? (insertRec m x w) x = some w := by
+  induction m with
+  | nil => simp [insertRec, find?]
+  | cons p m ih =>
+    obtain ⟨k, v⟩ := p
+    simp only [insertRec]
+    split
+    · rename_i h; simp [find?, h]
+    · split
+      · simp [find?]
+      · rename_i h _; simp [find?, h, ih]
+
+theorem find_insertRec_ne (m : List ((Nat × Nat) × ν)) (x y : Nat × Nat) (w : ν) (h : x ≠ y) :
+    find? (insertRec m x w) y = find? m y := by
+  induction m with
+  | nil => simp [insertRec, find?, h]
+  | cons p m ih =>
+    obtain ⟨k, v⟩ := p
+    simp only [insertRec]
+    split
+    · rename_i hk; subst hk; simp [find?, h]
+    · split
+      · simp [find?, h]
+      · by_cases hy : k = y
+        · simp [find?, hy]
+        · simp [find?, hy, ih]
+
+theorem find_insertRec (m : List ((Nat × Nat) × ν)) (x y : Nat × Nat) (w : ν) :
+    find? (insertRec m x w) y = if x = y then some w else find? m y := by
+  by_cases h : x = y
+  · subst h; simp
+  · simp [h, find_insertRec_ne m x y w h]
+
+theorem mem_insertRec (m : List ((Nat × Nat) × ν)) (x : Nat × Nat) (w : ν) (e : (Nat × Nat) × ν) (h : e ∈ insertRec m x w) :
+    e = (x, w) ∨ e ∈ m := by
+  induction m with
+  | nil => simp [insertRec] at h; exact Or.inl h
+  | cons p m ih =>
+    obtain ⟨k, v⟩ := p
+    simp only [insertRec] at h
+    split at h
+    · rename_i hk
+      rw [List.mem_cons] at h
+      rcases h with h | h
+      · left; rw [h, hk]
+      · right; exact List.mem_cons_of_mem _ h
+    · split at h
+      · rw [List.mem_cons] at h
+        rcases h with h | h
+        · exact Or.inl h
+        · exact Or.inr h
+      · rw [List.mem_cons] at h
+        rcases h with h | h
+        · right; rw [h]; exact List.mem_cons_self ..
+        · rcases ih h with h | h
+          · exact Or.inl h
+          · right; exact List.mem_cons_of_mem _ h
+
+theorem mem_keys_insertRec (m : List ((Nat × Nat) × ν)) (x y : Nat × Nat) (w : ν) :
+    y ∈ keys (insertRec m x w) ↔ y = x ∨ y ∈ keys m := by
+  induction m with
+  | nil => simp [insertRec, keys]
+  | cons p m ih =>
+    obtain ⟨k, v⟩ := p
+    simp only [insertRec]
+    split
+    · rename_i hk; subst hk; simp [keys]
+    · split
+      · simp [keys]
+      · simp only [keys, List.map_cons, List.mem_cons]
+        simp only [keys] at ih
+        rw [ih]
+        constructor
+        · rintro (h | h | h)
+          · exact Or.inr (Or.inl h)
+          · exact Or.inl h
+          · exact Or.inr (Or.inr h)
+        · rintro (h | h | h)
+          · exact Or.inr (Or.inl h)
+          · exact Or.inl h
+          · exact Or.inr (Or.inr h)
+
+theorem sorted_insertRec (m : List ((Nat × Nat) × ν)) (x : Nat × Nat) (w : ν) (h : RecsSorted m) : RecsSorted (insertRec m x w) := by
+  induction m with
+  | nil => simp [insertRec, RecsSorted]
+  | cons p m ih =>
+    obtain ⟨k, v⟩ := p
+    unfold RecsSorted at h ⊢
+    rw [List.pairwise_cons] at h
+    simp only [insertRec]
+    split
+    · rename_i hk
+      rw [List.pairwise_cons]; exact ⟨h.1, h.2⟩
+    · rename_i hk
+      split
+      · rename_i hlt
+        rw [List.pairwise_cons]
+        refine ⟨?_, List.pairwise_cons.mpr h⟩
+        intro e he
+        rw [List.mem_cons] at he
+        rcases he with rfl | he
+        · exact hlt
+        · exact pairLt_trans _ _ _ hlt (h.1 e he)
+      · rename_i hlt
+        rw [List.pairwise_cons]
+        refine ⟨?_, ih h.2⟩
+        intro e he
+        rcases mem_insertRec m x w e he with rfl | he
+        · exact pairLt_total x k (fun e => hk e.symm) (by simpa using hlt)
+        · exact h.1 e he
+
+theorem sorted_erase (m : List ((Nat × Nat) × ν)) (x : Nat × Nat) (h : RecsSorted m) : RecsSorted (erase m x) := by
+  induction m with
+  | nil => simp [erase, RecsSorted]
+  | cons p m ih =>
+    obtain ⟨k, v⟩ := p
+    unfold RecsSorted at h ⊢
+    rw [List.pairwise_cons] at h
+    simp only [erase]
+    split
+    · exact h.2
+    · rw [List.pairwise_cons]
+      refine ⟨?_, ih h.2⟩
+      intro e he
+      apply h.1
+      -- erase yields a sublist
+      clear ih h
+      induction m with
+      | nil => simp [erase] at he
+      | cons q m ih2 =>
+        obtain ⟨k2, v2⟩ := q
+        simp only [erase] at he
+        split at he
+        · exact List.mem_cons_of_mem _ he
+        · rw [List.mem_cons] at he
+          rcases he with rfl | he
+          · exact List.mem_cons_self ..
+          · exact List.mem_cons_of_mem _ (ih2 he)
+
+end Mainchain
